@@ -58,6 +58,10 @@ def r05a(ctx, P):
     for name in ("new", "add_document", "delete_documents", "commit", "rollback"):
         if ctx.anchor(rid, eps.get(name), "IndexWriter::" + name):
             entries[eps[name].path] = eps[name]
+    # every other IndexWriter method that takes the lock itself is an entry point too (e.g. add_documents)
+    for name, f in sorted(eps.items()):
+        if f.path not in entries and lock_acquisitions(f, field="writer_lock"):
+            entries[f.path] = f
     if ctx.anchor(rid, comp, "Index::compact"):
         entries[comp.path] = comp
     verified = set()
